@@ -159,9 +159,64 @@ func init() {
 		if x.Thorough() {
 			maxPl = 20000
 		}
-		for i, n := 0, x.N(20000, 1500000); i < n; i++ {
+		if x.Thorough() {
+			// the largest extension block the 16-bit word count can describe, and one word more
+			// (outside the domain: the count wraps; correspondence only)
+			for _, words := range []int{65535, 65534, 65536, 16384} {
+				for _, kind := range []int{profLegacy, profTwo, profOne} {
+					words, kind := words, kind
+					x.Case(func(c *Case) {
+						p := &PacketIn{}
+						genFixed(c.R, &p.H)
+						p.H.Extension = true
+						switch kind {
+						case profLegacy:
+							p.H.ExtensionProfile = 0x0101
+							p.Exts = []ExtIn{{0, c.R.Bytes(4 * words)}}
+						case profTwo:
+							p.H.ExtensionProfile = 0x1000
+							for left := 4 * words; left > 0; {
+								l := 255
+								if left < 257 {
+									l = left - 2
+								}
+								if l < 0 {
+									break
+								}
+								p.Exts = append(p.Exts, ExtIn{uint8(1 + len(p.Exts)%255), c.R.Bytes(l)})
+								left -= l + 2
+							}
+						default:
+							p.H.ExtensionProfile = 0xBEDE
+							for left := 4 * words; left > 0; {
+								l := 16
+								if left < 17 {
+									l = left - 1
+								}
+								if l < 1 {
+									break
+								}
+								p.Exts = append(p.Exts, ExtIn{uint8(1 + len(p.Exts)%14), c.R.Bytes(l)})
+								left -= l + 1
+							}
+						}
+						p.Payload = c.R.Bytes(c.R.Intn(3))
+						c.Tag("ext=huge")
+						observeC01(c, p, nil)
+					})
+				}
+			}
+		}
+		for i, n := 0, x.N(100000, 1500000); i < n; i++ {
 			x.Case(func(c *Case) {
-				p := genPacketWF(c.R, maxPl)
+				var p *PacketIn
+				if c.R.Chance(1, 20) {
+					// outside the domain: nothing is demanded, the model must still agree
+					p = genPacketOdd(c.R, 60)
+					c.Tag("odd")
+				} else {
+					p = genPacketWF(c.R, maxPl)
+				}
 				tagPacket(c, p)
 				var prev []byte
 				if c.R.Chance(2, 3) {
@@ -368,7 +423,7 @@ func init() {
 		if x.Thorough() {
 			maxPl = 8000
 		}
-		for i, n := 0, x.N(30000, 1500000); i < n; i++ {
+		for i, n := 0, x.N(150000, 1500000); i < n; i++ {
 			x.Case(func(c *Case) {
 				var p *PacketIn
 				if c.R.Chance(1, 10) {
@@ -684,7 +739,7 @@ func init() {
 				})
 			}
 		}
-		for i, n := 0, x.N(30000, 1500000); i < n; i++ {
+		for i, n := 0, x.N(100000, 1500000); i < n; i++ {
 			x.Case(func(c *Case) {
 				var p *PacketIn
 				switch c.R.Intn(10) {
